@@ -197,6 +197,9 @@ struct Book {
     reg: Arc<Registry>,
     /// ids owned by the value chain of instance i (or of its helper) and not yet releasable
     owned: Vec<Vec<u32>>,
+    /// ids lent through the delegation helper of instance i: owned by the helper, so only a make_mut ON THE
+    /// HELPER (a provided &mut-self method whose body lends mutably) may release them
+    owned_helper: Vec<Vec<u32>>,
     /// ids that a make_mut was allowed to release
     releasable: Vec<u32>,
     /// ids of values configured with returns(): live as long as the shared state
@@ -212,6 +215,13 @@ impl Book {
             for id in ids {
                 if self.reg.dropped(*id) != 0 {
                     return Err(format!("value {id} lent by instance {i} was dropped while the instance is alive"));
+                }
+            }
+        }
+        for (i, ids) in self.owned_helper.iter().enumerate() {
+            for id in ids {
+                if self.reg.dropped(*id) != 0 {
+                    return Err(format!("value {id} lent through the delegation helper of instance {i} was dropped while the instance is alive and the helper lent nothing mutably since"));
                 }
             }
         }
@@ -301,7 +311,7 @@ fn run_phase<'a>(
             RefOp::LendViaHelper(i) => {
                 let i = i as usize % n;
                 let t: &'a Tracked = insts[i].lend_default((*salt % 4) as u8);
-                book.owned[i].push(t.id);
+                book.owned_helper[i].push(t.id);
                 push_tracked(&mut held, t, i, true);
                 stats.via_helper += 1;
             }
@@ -447,7 +457,7 @@ fn execute_on(
     let n = insts.len();
     ZST_MADE.store(0, std::sync::atomic::Ordering::SeqCst);
     ZST_DROPPED.store(0, std::sync::atomic::Ordering::SeqCst);
-    let mut book = Book { reg: reg.clone(), owned: vec![vec![]; n], releasable: vec![], shared, zst_owned: vec![0; n], zst_releasable: 0 };
+    let mut book = Book { reg: reg.clone(), owned: vec![vec![]; n], owned_helper: vec![vec![]; n], releasable: vec![], shared, zst_owned: vec![0; n], zst_releasable: 0 };
     let mut salt = 0u32;
     let mut stats = Stats::default();
     for phase in &case.phases {
@@ -492,11 +502,18 @@ fn execute_on(
                         return Err("mutation through make_mut reference not visible".into());
                     }
                 }
-                // earlier values of this instance's own chain may have been released now
-                book.zst_releasable += std::mem::take(&mut book.zst_owned[i]);
-                let earlier = std::mem::take(&mut book.owned[i]);
-                book.releasable.extend(earlier);
-                book.owned[i].push(id);
+                if matches!(phase.end, PhaseEnd::LendMutDefault(_)) {
+                    // make_mut ran on the HELPER: only what the helper lent earlier may have been released
+                    let earlier = std::mem::take(&mut book.owned_helper[i]);
+                    book.releasable.extend(earlier);
+                    book.owned_helper[i].push(id);
+                } else {
+                    // earlier values of this instance's own chain may have been released now
+                    book.zst_releasable += std::mem::take(&mut book.zst_owned[i]);
+                    let earlier = std::mem::take(&mut book.owned[i]);
+                    book.releasable.extend(earlier);
+                    book.owned[i].push(id);
+                }
                 book.check_no_early_drop()?;
                 stats.make_mut += 1;
             }
@@ -564,7 +581,7 @@ fn execute_on(
             return Err("dropping a clone panicked".to_string());
         }
         book.zst_releasable += std::mem::take(&mut book.zst_owned[i]);
-        for id in &book.owned[i] {
+        for id in book.owned[i].iter().chain(book.owned_helper[i].iter()) {
             if reg.dropped(*id) != 1 {
                 return Err(format!("after dropping clone {i}, its lent value {id} was dropped {} times", reg.dropped(*id)));
             }
